@@ -22,6 +22,8 @@ from mesonbuild.mesonlib import MesonException
 # ---- token alphabet (DESIGN C02; the listing there has 41 entries) ---------------------------------------
 ALPHABET = [
     ('id', 'a'), ('number', '1'), ('string', "'s'"), ('mlstring', "'''m\nl'''"), ('fstring', "f'@a@'"),
+    # strings whose lexeme spans lines in the other three spellings (a raw newline inside '...' is deprecated but accepted)
+    ('nlstring', "'p\nq'"), ('nlfstring', "f'p\nq'"), ('mlfstring', "f'''m\nl'''"),
     ('not', 'not'), ('in', 'in'), ('and', 'and'), ('or', 'or'), ('if', 'if'), ('elif', 'elif'), ('else', 'else'),
     ('endif', 'endif'), ('foreach', 'foreach'), ('endforeach', 'endforeach'), ('continue', 'continue'),
     ('break', 'break'), ('true', 'true'),
